@@ -262,6 +262,16 @@ def gen_layout(rng):
         key = (L["types2"]["dir"], L["types2"]["name"].lower())
         if key in seen or (L["base1"]["dir"] == "top" and not plus_pair) or (plus_pair and not L["types"]["name"].endswith(" t.xml")):
             del L["types2"]      # the name is taken in that directory
+    # two bases in different directories that name THEIR base by the same reference text: the text
+    # that leads from base1 to base2 leads from base3 to another file, base5
+    if L["base3"]["dir"] != L["base1"]["dir"]:
+        import posixpath
+        target = posixpath.normpath(posixpath.join(L["dirs"][L["base3"]["dir"]] or ".", rel(L, "base1", "base2")))
+        taken = set(posixpath.normpath(posixpath.join(L["dirs"][L[k]["dir"]] or ".", L[k]["name"])).lower()
+                    for k in L if isinstance(L[k], dict) and "name" in L[k])
+        if not target.startswith("..") and target.lower() not in taken:
+            L["dirs"]["b5dir"] = posixpath.dirname(target)
+            L["base5"] = {"dir": "b5dir", "name": posixpath.basename(target)}
     return L
 
 
@@ -320,12 +330,17 @@ def _layout_files(L, f, root=None):
                     ('  <import src=%s/>\n  <multisection type="ts2" name="*" attribute="secs2"/>\n'
                      % xml_attr(rel(L, "base1", "types2"))) if "types2" in L else ""),
         "types": '<schema>\n  <sectiontype name="ts"><key name="k" datatype="integer"/></sectiontype>\n</schema>\n',
-        "base3": '<schema>\n  <key name="b3" default="three"/>\n</schema>\n',
+        "base3": '<schema%s>\n  <key name="b3" default="three"/>\n</schema>\n'
+                 % ((" extends=" + xml_attr(rel(L, "base1", "base2"))) if "base5" in L else ""),
+        **({"base5": '<schema>\n  <key name="b5" default="five"/>\n</schema>\n'} if "base5" in L else {}),
         **({"types2": '<schema>\n  <sectiontype name="ts2"><key name="k2" datatype="integer" default="5"/></sectiontype>\n</schema>\n'}
            if "types2" in L else {}),
         "schema": '<schema extends=%s>\n  <import src=%s/>\n  <multisection type="ts" name="*" attribute="secs"/>\n'
                   '  <multikey name="m" attribute="m"/>\n</schema>\n'
-                  % (xml_attr(rel(L, "schema", "base1") + f("extends") + " " + rel(L, "schema", "base3") + f("extends-last")),
+                  % (xml_attr(rel(L, "schema", "base1") + f("extends") + f("extends-twice")
+                              # one base named twice, the fragment on the first of the two spellings
+                              + ((" " + rel(L, "schema", "base1")) if f("extends-twice") else "")
+                              + " " + rel(L, "schema", "base3") + f("extends-last")),
                      xml_attr(rel(L, "schema", "types") + f("src"))),
         "inc2": "m from-inc2\n<ts deep>\n k 3\n</ts>\n",
         "inc4": "m from-inc4\n",
@@ -433,7 +448,7 @@ def check_layout(L, frag=None):
                 out.append(("schema:error-url-not-normalised:%s" % label, repr(r[2])))
         if frag is None and first[0] == "ok":
             out.extend(same_relative_name_probe(root, L, spath))
-        if frag in ("extends", "extends2", "extends-last", "src"):
+        if frag in ("extends", "extends2", "extends-last", "extends-twice", "src"):
             if first[0] == "ok":
                 out.append(("fragment-accepted:%s" % frag, "schema loaded although the %s reference carries '#frag'" % frag))
             return out
@@ -480,7 +495,7 @@ def check_layout(L, frag=None):
             want_m = ["first", "from-inc1", "from-inc2", "from-inc4", "from-inc3", "last", "from-inc3", "from-inc4"]
             got = cfirst[1]["attrs"].get("m")
             if got != want_m or cfirst[1]["attrs"].get("b1") != "changed" or cfirst[1]["attrs"].get("b2") != "two" \
-                    or cfirst[1]["attrs"].get("b3") != "three":
+                    or cfirst[1]["attrs"].get("b3") != "three" or ("base5" in L and cfirst[1]["attrs"].get("b5") != "five"):
                 out.append(("layout-config-wrong-content", repr(cfirst[1]["attrs"])[:300]))
     finally:
         shutil.rmtree(root, ignore_errors=True)
@@ -653,7 +668,7 @@ def run_shard(spec):
     for i in range(spec["lo"], spec["hi"]):
         rng = loadcheck.case_rng(spec["seed"] + 1818, i)
         L = gen_layout(rng)
-        frag = rng.choice([None, None, None, None, "include", "include2", "extends", "extends2", "extends-last", "src", "top"])
+        frag = rng.choice([None, None, None, None, "include", "include2", "extends", "extends2", "extends-last", "extends-twice", "src", "top"])
         res.evaluations += 1
         try:
             fl = check_layout(L, frag)
